@@ -41,7 +41,13 @@ impl Format<()> for Empty {
 }
 
 fn real_tag(codec: u32) -> Vec<u8> {
-    encode_multiformat(&(), codec, &Empty).expect("writing into a Vec")
+    // the crate's codec type is inferred: the driver keeps compiling when the crate narrows or widens it; a number the
+    // crate's type cannot hold has no encoding (empty), which the model comparison reports
+    #[allow(unreachable_patterns, irrefutable_let_patterns)]
+    match codec.try_into() {
+        Ok(c) => encode_multiformat(&(), c, &Empty).expect("writing into a Vec"),
+        Err(_) => vec![],
+    }
 }
 
 fn hex_lit(b: &[u8]) -> String {
@@ -101,7 +107,8 @@ fn verr(dbg: &str) -> &'static str {
 }
 
 fn vres(bs: &[u8]) -> (String, Option<u32>, String) {
-    match std::panic::catch_unwind(|| parse_multiformat_bytes(bs).map(|(n, r)| (n, r.to_vec())).map_err(|e| format!("{:?}", e))) {
+    // the codec number is widened to u64 first: the driver must keep compiling when the crate narrows or widens its integer type
+    match std::panic::catch_unwind(|| parse_multiformat_bytes(bs).map(|(n, r)| (u64::from(n) as u32, r.to_vec())).map_err(|e| format!("{:?}", e))) {
         Ok(Ok((n, rest))) => (format!("(VOk {} {})", n, hx(&rest)), Some(n), "ok".into()),
         Ok(Err(e)) => (format!("(VErr {})", verr(&e)), None, e),
         Err(_) => ("VPanic".into(), None, "panic".into()),
